@@ -76,6 +76,320 @@ func c11PlanarSmall(adj [][]bool) bool {
 	return true
 }
 
+// c11Planar7: oracle for n == 7 by Wagner's theorem.  A Kuratowski minor (5 or 6 vertices)
+// of a 7-vertex graph is reached by first deleting an unused vertex or first contracting an
+// edge inside a branch set, so G is planar iff every G-v and every G/e (6 vertices) is.
+func c11Planar7(adj [][]bool) bool {
+	n := len(adj)
+	m := 0
+	for i := 0; i < n; i++ {
+		for j := i + 1; j < n; j++ {
+			if adj[i][j] {
+				m++
+			}
+		}
+	}
+	if m > 3*n-6 {
+		return false
+	}
+	minor := func(drop, into int) [][]bool {
+		// vertices other than drop, renumbered; drop's edges go to `into` when into >= 0
+		idx := make([]int, n)
+		k := 0
+		for v := 0; v < n; v++ {
+			if v != drop {
+				idx[v] = k
+				k++
+			}
+		}
+		out := make([][]bool, n-1)
+		for i := range out {
+			out[i] = make([]bool, n-1)
+		}
+		for a := 0; a < n; a++ {
+			for b := 0; b < n; b++ {
+				if !adj[a][b] || a == b {
+					continue
+				}
+				x, y := a, b
+				if x == drop {
+					x = into
+				}
+				if y == drop {
+					y = into
+				}
+				if x < 0 || y < 0 || x == y {
+					continue
+				}
+				out[idx[x]][idx[y]] = true
+				out[idx[y]][idx[x]] = true
+			}
+		}
+		return out
+	}
+	for v := 0; v < n; v++ {
+		if !c11PlanarSmall(minor(v, -1)) {
+			return false
+		}
+	}
+	for u := 0; u < n; u++ {
+		for v := u + 1; v < n; v++ {
+			if adj[u][v] && !c11PlanarSmall(minor(v, u)) {
+				return false
+			}
+		}
+	}
+	return true
+}
+
+// c11Hamilton7: the 6-cycle 0-1-2-3-4-5 with every set of chords (2^9) and vertex 6 joined
+// to every set of at most D cycle vertices: the first cycle found has many chords, whose
+// admissible faces diverge as fragments are embedded.  Identity and two relabelling generators.
+func c11Hamilton7(D int) {
+	n := 7
+	adj := make([][]bool, n)
+	for i := range adj {
+		adj[i] = make([]bool, n)
+	}
+	for i := 0; i < 6; i++ {
+		j := (i + 1) % 6
+		adj[i][j], adj[j][i] = true, true
+	}
+	for i := 0; i < 6; i++ {
+		for j := i + 2; j < 6; j++ {
+			if i == 0 && j == 5 {
+				continue
+			}
+			if rt.Choice("chord", 2) == 1 {
+				adj[i][j], adj[j][i] = true, true
+			}
+		}
+	}
+	deg := 0
+	for i := 0; i < 6; i++ {
+		if deg < D && rt.Choice("spoke", 2) == 1 {
+			adj[i][6], adj[6][i] = true, true
+			deg++
+		}
+	}
+	want := c11Planar7(adj)
+	got, ok := c11Call(vgDense(adj), "dense")
+	if ok {
+		rt.Check(got == want, "IsPlanar differs from the Wagner oracle (6-cycle with chords + one vertex)")
+	}
+	got, ok = c11Call(vgSparse(adj), "sparse")
+	if ok {
+		rt.Check(got == want, "IsPlanar differs from the Wagner oracle (sparse)")
+	}
+	for _, tau := range c09Taus(n) {
+		got, ok := c11Call(vgDense(vgRelabel(adj, tau)), "relabelled")
+		if ok {
+			rt.Check(got == want, "IsPlanar changes under relabelling")
+		}
+	}
+	rt.Reach("end")
+}
+
+// c11EarConfigs: a 6-cycle on positions 0..5 with a set of K chords (bit k of the chord
+// mask = k-th non-cycle pair) and a seventh vertex joined to E cycle vertices, one
+// representative per orbit of the dihedral group of the cycle (the least (chords, ear) code).
+func c11EarConfigs(Ks, Es []int) [][2]int {
+	type pr struct{ a, b int }
+	var pairs []pr
+	for i := 0; i < 6; i++ {
+		for j := i + 2; j < 6; j++ {
+			if !(i == 0 && j == 5) {
+				pairs = append(pairs, pr{i, j})
+			}
+		}
+	}
+	pairIndex := func(a, b int) int {
+		if a > b {
+			a, b = b, a
+		}
+		for k, p := range pairs {
+			if p.a == a && p.b == b {
+				return k
+			}
+		}
+		return -1
+	}
+	in := func(x int, xs []int) bool {
+		for _, y := range xs {
+			if x == y {
+				return true
+			}
+		}
+		return false
+	}
+	var out [][2]int
+	for cm := 0; cm < 1<<uint(len(pairs)); cm++ {
+		if !in(c10Pop(cm), Ks) {
+			continue
+		}
+		for em := 0; em < 1<<6; em++ {
+			if !in(c10Pop(em), Es) {
+				continue
+			}
+			least := true
+			for r := 0; r < 12 && least; r++ {
+				img := func(v int) int {
+					if r < 6 {
+						return (v + r) % 6
+					}
+					return (6 + r - v) % 6
+				}
+				cm2, em2 := 0, 0
+				for k, p := range pairs {
+					if cm>>uint(k)&1 == 1 {
+						cm2 |= 1 << uint(pairIndex(img(p.a), img(p.b)))
+					}
+				}
+				for v := 0; v < 6; v++ {
+					if em>>uint(v)&1 == 1 {
+						em2 |= 1 << uint(img(v))
+					}
+				}
+				if cm2 < cm || (cm2 == cm && em2 < em) {
+					least = false
+				}
+			}
+			if least {
+				out = append(out, [2]int{cm, em})
+			}
+		}
+	}
+	return out
+}
+
+// c11FirstCycleChords: the cycle closed by the greedy walk from label 0 that always moves
+// to the smallest neighbour other than the vertex it came from (the cycle a path-addition
+// embedder starts from), under the labelling perm (base vertex -> label): its number of chords.
+func c11FirstCycleChords(adj [][]bool, perm []int) int {
+	n := len(adj)
+	inv := make([]int, n)
+	for v, l := range perm {
+		inv[l] = v
+	}
+	pos := make([]int, n) // position on the walk + 1
+	var walk []int
+	cur, parent := 0, -1
+	for {
+		pos[cur] = len(walk) + 1
+		walk = append(walk, cur)
+		next := -1
+		for l := 0; l < n; l++ {
+			if l != parent && l != cur && adj[inv[cur]][inv[l]] {
+				next = l
+				break
+			}
+		}
+		if next < 0 {
+			return 0
+		}
+		if pos[next] > 0 {
+			cyc := walk[pos[next]-1:]
+			k := len(cyc)
+			chords := 0
+			for x := 0; x < k; x++ {
+				for y := x + 2; y < k; y++ {
+					if x == 0 && y == k-1 {
+						continue
+					}
+					if adj[inv[cyc[x]]][inv[cyc[y]]] {
+						chords++
+					}
+				}
+			}
+			return chords
+		}
+		parent, cur = cur, next
+	}
+}
+
+// c11EarLabellings: every labelling (of the 5040) of every such graph under which that first
+// cycle has at least C chords; the loop over the labellings runs inside one path and the Wagner
+// oracle is evaluated once per graph.  The canonically labelled graphs of the repository's
+// own planarity test never start from a cycle with chords.
+func c11EarLabellings(Ks, Es []int, C int) {
+	cfgs := c11EarConfigs(Ks, Es)
+	cfg := cfgs[rt.Choice("config", len(cfgs))]
+	n := 7
+	adj := make([][]bool, n)
+	for i := range adj {
+		adj[i] = make([]bool, n)
+	}
+	for i := 0; i < 6; i++ {
+		j := (i + 1) % 6
+		adj[i][j], adj[j][i] = true, true
+	}
+	k := 0
+	for i := 0; i < 6; i++ {
+		for j := i + 2; j < 6; j++ {
+			if i == 0 && j == 5 {
+				continue
+			}
+			if cfg[0]>>uint(k)&1 == 1 {
+				adj[i][j], adj[j][i] = true, true
+			}
+			k++
+		}
+	}
+	for v := 0; v < 6; v++ {
+		if cfg[1]>>uint(v)&1 == 1 {
+			adj[v][6], adj[6][v] = true, true
+		}
+	}
+	want := c11Planar7(adj)
+	// Heap's algorithm over all labellings
+	perm := []int{0, 1, 2, 3, 4, 5, 6}
+	c := make([]int, n)
+	count := 0
+	visit := func() bool {
+		count++
+		if c11FirstCycleChords(adj, perm) < C {
+			return true
+		}
+		rel := vgRelabel(adj, perm)
+		got, ok := c11Call(vgDense(rel), "relabelled")
+		if !ok {
+			return false
+		}
+		if got != want {
+			rt.Fail("IsPlanar gives the wrong answer for a labelling whose first cycle has chords (6-cycle with chords and an ear)")
+			return false
+		}
+		return true
+	}
+	if !visit() {
+		return
+	}
+	for i := 0; i < n; {
+		if c[i] < i {
+			if i%2 == 0 {
+				perm[0], perm[i] = perm[i], perm[0]
+			} else {
+				perm[c[i]], perm[i] = perm[i], perm[c[i]]
+			}
+			if !visit() {
+				return
+			}
+			c[i]++
+			i = 0
+		} else {
+			c[i] = 0
+			i++
+		}
+	}
+	rt.Check(count == 5040, "harness: not all labellings visited")
+	rt.Reach("end")
+}
+
+func H_c11_earlabellings_q() { c11EarLabellings([]int{3}, []int{2}, 3) }
+func H_c11_earlabellings_t() { c11EarLabellings([]int{2, 3, 4}, []int{2, 3}, 2) }
+
+func H_c11_hamilton7_t() { c11Hamilton7(6) }
+
 func c11Call(g Graph, what string) (bool, bool) {
 	var r bool
 	p, msg := rt.Panics(func() { r = IsPlanar(g) })
